@@ -130,7 +130,7 @@ func maintEngine(seed uint64, tier string, args []string) {
 	if tier == "thorough" {
 		n = len(maintStrategies) * 12
 	}
-	if p := os.Getenv("VERIF_PROP"); (p == "C05" || p == "C06" || p == "C14") && from < n {
+	if p := os.Getenv("VERIF_PROP"); (p == "C05" || p == "C06" || p == "C09" || p == "C14") && from < n {
 		from = n // these checks run the pass cases only
 	}
 	np := maintPassCount(tier) // model-compared passes of the maintainer (maint_pass.go) follow the hostile-reply cases
